@@ -4,10 +4,10 @@ import engine as E
 import lexstreams as LS
 
 VOCAB = ["SELECT", "a", "(b,c)", "1", ",", "[x]", "From"]
-OPS = ["go:0", "go:1", "gn:1", "get", "pop", "mv:1", "close", "fin", "s:SELECT,a", "sm:SELECT,a", "sm:@NAME", "m:SELECT,a", "m:a", "mk:@PARENTHESIS", "ss:COMMA", "sms:COMMA", "s1:FROM",
+OPS = ["go:0", "go:1", "gn:1", "get", "pop", "mv:1", "close", "fin", "s:SELECT,a", "sm:SELECT,a", "sm:@NAME", "m:SELECT,a", "m:a", "mk:@PARENTHESIS", "ss:COMMA", "sms:COMMA", "ss:From", "sms:From", "sms:FROM", "sms:a", "sms:A", "s1:FROM",
        "sm1:SELECT", "s2:SELECT,A", "sm2:A,FROM", "s3:SELECT,A,FROM", "sm3:SELECT,A,FROM", "set:a,1", "setu:FROM,SELECT", "smsetu:A,SELECT", "src", "psrc", "gkid", "pkid", "split:COMMA"]
 PEEK = ("go", "gn", "get", "close", "fin", "s", "mk", "ss", "s1", "s2", "s3", "set", "setu", "src", "gkid")
-MOVE_N = {"sm:SELECT,a": 2, "sm:@NAME": 1, "sms:COMMA": 1, "sm1:SELECT": 1, "sm2:A,FROM": 2, "sm3:SELECT,A,FROM": 3, "smsetu:A,SELECT": 1}
+MOVE_N = {"sms:From": 1, "sms:FROM": 1, "sms:a": 1, "sms:A": 1, "sm:SELECT,a": 2, "sm:@NAME": 1, "sms:COMMA": 1, "sm1:SELECT": 1, "sm2:A,FROM": 2, "sm3:SELECT,A,FROM": 3, "smsetu:A,SELECT": 1}
 
 
 def oracle(ntoks, ops, answer, toks=None):
@@ -28,6 +28,12 @@ def oracle(ntoks, ops, answer, toks=None):
             # the documented meaning of the keyword probes: the next k tokens, upper-cased, are exactly the k words
             args = op.split(":")[1].split(",")
             want = pos + len(args) <= len(toks) and all(toks[pos + i].upper() == a_ for i, a_ in enumerate(args))
+            if (r == "T") != want:
+                fails.append(("probe-answer", "%s at %d of %r answered %s" % (op, pos, toks, r)))
+        if name in ("ss", "sms") and toks and r in ("T", "F"):
+            # the exact probes compare the token's text as written (no case folding)
+            arg = "," if op.split(":")[1] == "COMMA" else op.split(":")[1]
+            want = pos < len(toks) and toks[pos] == arg
             if (r == "T") != want:
                 fails.append(("probe-answer", "%s at %d of %r answered %s" % (op, pos, toks, r)))
         if name == "close" and ((r == "-") != (pos >= ntoks)):
